@@ -74,7 +74,7 @@ func init() {
 	// zero-vertex rings/lines inside non-empty polygons / multi line strings are outside the
 	// domain (no WKT form); empty values and empty collection members are inside it.
 	base := func(f func(*h.Rand) float64) *gen.GeomOpts {
-		return &gen.GeomOpts{Float: f, Empty: true, EmptyParts: false, RingBound: true}
+		return &gen.GeomOpts{Float: f, Empty: true, EmptyParts: false, RingBound: true, Huge: true}
 	}
 	expo := func(r *h.Rand) float64 { // weighted towards values printed in exponent form
 		switch r.Intn(4) {
